@@ -448,16 +448,19 @@ def run_py(modname, fn, c, by='no', seed=None, output_stl=False, variant=0):
         np.random.seed(seed)
     f = getattr(m, fn)
     cellarg = cell_argument(c, variant)
-    positional = zlib.crc32(('%s|%s|%s|%s|%s|%s' % (modname, fn, by, c.s['key'], output_stl, variant)).encode()) % 2 == 1
+    h = zlib.crc32(('%s|%s|%s|%s|%s|%s' % (modname, fn, by, c.s['key'], output_stl, variant)).encode())
+    positional = h % 2 == 1
+    # strings arrive as run-time objects (never the interned literal of the library's default), flags as bool / int / numpy.bool_
+    ostl = gens.flag(output_stl, h // 2)
     if by == 'no':
         if positional:
-            return f(cellarg, c.smin, c.smax, None, c.s['no'], call_cc(c.s), output_stl)
-        return f(cellarg, c.smin, c.smax, sgno=c.s['no'], cell_choice=call_cc(c.s), output_stl=output_stl)
+            return f(cellarg, c.smin, c.smax, None, c.s['no'], gens.fresh_str(call_cc(c.s)), ostl)
+        return f(cellarg, c.smin, c.smax, sgno=c.s['no'], cell_choice=gens.fresh_str(call_cc(c.s)), output_stl=ostl)
     nv = name_variants(c.s)
     nm, cc = nv[variant % len(nv)]
     if positional:
-        return f(cellarg, c.smin, c.smax, nm, None, cc, output_stl)
-    return f(cellarg, c.smin, c.smax, sgname=nm, cell_choice=cc, output_stl=output_stl)
+        return f(cellarg, c.smin, c.smax, gens.fresh_str(nm), None, gens.fresh_str(cc), ostl)
+    return f(cellarg, c.smin, c.smax, sgname=gens.fresh_str(nm), cell_choice=gens.fresh_str(cc), output_stl=ostl)
 
 
 def cell_argument(c, variant=0):
